@@ -88,19 +88,19 @@ type vfSession struct {
 	progress  *vfProgressRec // rig T
 	sprogress *vfProgressRec
 
-	listener    net.Listener
-	port        int
-	uniqueID    string
-	trigger     string
-	destRoot    string
-	srcPaths    []string
-	tunnelConns *vfConnLog
-	stdoutMark int
-	doctor     func([]*sourceFile) []*sourceFile // rewrites the sender's records (hostile names)
-	tunnelHook func(port int, dial func() net.Conn) net.Conn // wraps the client's tunnel connector
+	listener        net.Listener
+	port            int
+	uniqueID        string
+	trigger         string
+	destRoot        string
+	srcPaths        []string
+	tunnelConns     *vfConnLog
+	stdoutMark      int
+	doctor          func([]*sourceFile) []*sourceFile             // rewrites the sender's records (hostile names)
+	tunnelHook      func(port int, dial func() net.Conn) net.Conn // wraps the client's tunnel connector
 	relayTunnelHook func(port int, dial func() net.Conn) net.Conn // wraps the relays' connector towards the server
-	tunOut      *vfWire // shadow tap: what the client wrote into its tunnel connection
-	tunIn       *vfWire // shadow tap: what the client read from its tunnel connection
+	tunOut          *vfWire                                       // shadow tap: what the client wrote into its tunnel connection
+	tunIn           *vfWire                                       // shadow tap: what the client read from its tunnel connection
 
 	mu sync.Mutex
 }
@@ -531,9 +531,13 @@ func (s *vfSession) ClientOutcome() vfOutcome {
 			}
 			switch m.Type {
 			case "EXIT", "fail", "FAIL":
-				line := tap[m.Start:m.End]
-				line = bytes.TrimRight(line, "\n")
-				line = bytes.TrimSuffix(line, []byte("!"))
+				line := m.Full // (the raw tap is capped; the parsed line is kept whole)
+				if line == nil && m.End <= int64(len(tap)) {
+					line = bytes.TrimSuffix(bytes.TrimRight(tap[m.Start:m.End], "\n"), []byte("!"))
+				}
+				if line == nil {
+					continue
+				}
 				i := bytes.IndexByte(line, ':')
 				dec, err := decodeString(string(line[i+1:]))
 				if err != nil {
@@ -551,12 +555,37 @@ func (s *vfSession) ClientOutcome() vfOutcome {
 }
 
 // ServerOutcome classifies what the server role returned / printed.
+// actConfirm reports what the client's ACT line said: 1 confirm, 0 declined (the server then prints
+// "Cancelled" and its role function returns nil), -1 no ACT seen.
+func (s *vfSession) actConfirm() int {
+	for _, w := range []*vfWire{s.cliW(), s.tunOut} {
+		for _, m := range w.Msgs() {
+			if m.Type != "ACT" || len(m.Full) < 6 {
+				continue
+			}
+			if dec, err := decodeString(string(m.Full[5:])); err == nil {
+				var a transferAction
+				if json.Unmarshal(dec, &a) == nil {
+					if a.Confirm {
+						return 1
+					}
+					return 0
+				}
+			}
+		}
+	}
+	return -1
+}
+
 func (s *vfSession) ServerOutcome() vfOutcome {
 	s.mu.Lock()
 	err := s.srvErr
 	s.mu.Unlock()
 	if err != nil {
 		return vfOutcome{Kind: "error", Text: err.Error(), Err: err}
+	}
+	if s.actConfirm() == 0 {
+		return vfOutcome{Kind: "cancelled", Text: "Cancelled"}
 	}
 	if s.cfg.Dir == "up" {
 		// message printed by serverExit: "Saved N ... to <dest>\r\n- names"
